@@ -141,6 +141,13 @@ Definition px_blend_ok (bg : N * N * N * N) (p : spx) : bool :=
 Definition parents_blend_ok (bg : N * N * N * N) (parents : list (list (list spx))) : bool :=
   forallb (forallb (forallb (px_blend_ok bg))) parents.
 
+(* run-length notation for the rows of large parents in case files (parsing cost only) *)
+Fixpoint unrle (l : list (nat * spx)) : list spx :=
+  match l with
+  | [] => []
+  | (n, p) :: r => repeat p n ++ unrle r
+  end.
+
 Inductive c12_case :=
   SIX (bg : N * N * N * N)            (* the handler's background (black, opaque when not configured) *)
       (parents : list (list (list spx)))
